@@ -41,13 +41,35 @@ var baselineFuncsTxt string
 
 var baselineSigs = map[string]string{}
 
+// baselineParams: receiver and parameter names of the validated tree (the reviewed tables spell expressions with them).
+var baselineParams = map[string][]string{}
+
+// paramNames: receiver name first, then the parameters in order.
+func paramNames(sig *types.Signature) []string {
+	var out []string
+	if sig == nil {
+		return nil
+	}
+	if r := sig.Recv(); r != nil {
+		out = append(out, r.Name())
+	}
+	for i := 0; i < sig.Params().Len(); i++ {
+		out = append(out, sig.Params().At(i).Name())
+	}
+	return out
+}
+
 var baselineFuncs = func() map[string]bool {
 	m := map[string]bool{}
 	for _, l := range strings.Split(baselineFuncsTxt, "\n") {
 		if l = strings.TrimSpace(l); l != "" {
 			name, sig, _ := strings.Cut(l, "\t")
+			sig, pn, _ := strings.Cut(sig, "\t")
 			m[name] = true
 			baselineSigs[name] = sig
+			if pn != "" {
+				baselineParams[name] = strings.Split(pn, ",")
+			}
 		}
 	}
 	return m
@@ -604,6 +626,21 @@ func (f *e1func) runInlined(st *fstate, c *ast.CallExpr, callee *FuncInfo) *inlR
 					more = append(more, fact("eq", r, op))
 					if op.K == "nil" {
 						more = append(more, fact("nil", r))
+					}
+				}
+			}
+			for mi, m := range more {
+				// the values equated with the results are spelled in the caller's vocabulary like every other exit fact
+				if mentionsLocalOf(m, g) {
+					tmp := ns.clone()
+					tmp.facts[m.Key()] = m
+					tmp = g.projectLocals(tmp)
+					for _, pf := range tmp.facts {
+						if pf.S == m.S && len(pf.A) == len(m.A) && pf.A[0].Key() == m.A[0].Key() {
+							if _, old := ns.facts[pf.Key()]; !old {
+								more[mi] = pf
+							}
+						}
 					}
 				}
 			}
